@@ -40,6 +40,11 @@ class System:
             if isinstance(getattr(fd, a, None), np.ndarray):
                 self.watch.append((f"grid:{a}", getattr(fd, a),
                                    cc.digest_value(getattr(fd, a))))
+        # option objects handed to the constructor
+        for a in ('center', 'extract_radii'):
+            obj = getattr(self.rel, a, None)
+            if isinstance(obj, np.ndarray):
+                self.watch.append((f"option:{a}", obj, cc.digest_value(obj)))
         self.last = None
 
     def canon(self):
